@@ -541,5 +541,254 @@ theorem EqN.insert {l l' : Entries} (h : EqN l l') (k : Str) {v v' : Val}
   · simp [e, hv]
   · simp only [e, if_false]; exact h q
 
+
+/-! ### `addChild` = insert of the promoted value; iterated promotion = `Conv.collect` -/
+
+/-- what `addChild` stores under the key, given what is there -/
+def promote (o : Option Val) (v : Val) : Val :=
+  match o with
+  | some (.list xs) => .list (xs ++ [v])
+  | some old => .list [old, v]
+  | none => v
+
+theorem addChild_eq (na : Entries) (k : Str) (v : Val) :
+    addChild na k v = insert k (promote (lookup k na) v) na := by
+  unfold addChild promote
+  split <;> simp_all
+
+theorem lookup_addChild (q : Str) (na : Entries) (k : Str) (v : Val) :
+    lookup q (addChild na k v) = if q = k then some (promote (lookup k na) v) else lookup q na := by
+  rw [addChild_eq, lookup_insert]
+
+theorem nodup_keys_addChild (na : Entries) (k : Str) (v : Val) (h : (keys na).Nodup) :
+    (keys (addChild na k v)).Nodup := by
+  rw [addChild_eq]; exact nodup_keys_insert _ _ _ h
+
+theorem addChild_ne_nil (na : Entries) (k : Str) (v : Val) : (addChild na k v).isEmpty = false := by
+  rw [addChild_eq]
+  cases na with
+  | nil => simp [insert]
+  | cons e rest => obtain ⟨k', v'⟩ := e; simp only [insert]; split <;> simp
+
+theorem insert_ne_nil (k : Str) (v : Val) (na : Entries) : (insert k v na).isEmpty = false := by
+  cases na with
+  | nil => simp [insert]
+  | cons e rest => obtain ⟨k', v'⟩ := e; simp only [insert]; split <;> simp
+
+theorem normList_append : ∀ (xs ys : List Val),
+    Val.normList (xs ++ ys) = Val.normList xs ++ Val.normList ys
+  | [], ys => by simp [Val.normList]
+  | x :: xs, ys => by simp [Val.normList, normList_append xs ys]
+
+theorem norm_promote (o : Option Val) (v : Val) :
+    (promote o v).norm = promote (o.map Val.norm) v.norm := by
+  cases o with
+  | none => simp [promote]
+  | some old =>
+    cases old <;> simp [promote, Val.norm, Val.normList, normList_append]
+
+theorem EqN.addChild {l l' : Entries} (h : EqN l l') (k : Str) {v v' : Val}
+    (hv : v.norm = v'.norm) : EqN (addChild l k v) (addChild l' k v') := by
+  rw [addChild_eq, addChild_eq]
+  refine EqN.insert h k ?_
+  rw [norm_promote, norm_promote, h k, hv]
+
+/-- adding the children `cs` (key, value) in order -/
+def addAll (na : Entries) (cs : List (Str × Val)) : Entries :=
+  cs.foldl (fun b c => addChild b c.1 c.2) na
+
+theorem addAll_nil (na : Entries) : addAll na [] = na := rfl
+theorem addAll_cons (na : Entries) (c : Str × Val) (cs : List (Str × Val)) :
+    addAll na (c :: cs) = addAll (addChild na c.1 c.2) cs := rfl
+
+theorem EqN.addAll : ∀ (cs : List (Str × Val)) {l l' : Entries}, EqN l l' →
+    EqN (addAll l cs) (addAll l' cs)
+  | [], _, _, h => h
+  | c :: cs, _, _, h => by
+      rw [addAll_cons, addAll_cons]
+      exact EqN.addAll cs (EqN.addChild h c.1 rfl)
+
+theorem nodup_keys_addAll : ∀ (cs : List (Str × Val)) (na : Entries), (keys na).Nodup →
+    (keys (addAll na cs)).Nodup
+  | [], _, h => h
+  | c :: cs, na, h => by
+      rw [addAll_cons]; exact nodup_keys_addAll cs _ (nodup_keys_addChild _ _ _ h)
+
+/-- a later text-key insert commutes with adding children whose keys differ from the text key -/
+theorem addAll_insert_comm (tk : Str) (x : Val) : ∀ (cs : List (Str × Val)) (na : Entries),
+    (∀ c ∈ cs, c.1 ≠ tk) → EqN (addAll (insert tk x na) cs) (insert tk x (addAll na cs))
+  | [], na, _ => EqN.refl _
+  | c :: cs, na, h => by
+      rw [addAll_cons, addAll_cons]
+      have hc : c.1 ≠ tk := h c (List.mem_cons_self ..)
+      have step : EqN (addChild (insert tk x na) c.1 c.2) (insert tk x (addChild na c.1 c.2)) := by
+        apply EqN.of_lookup
+        intro q
+        simp only [lookup_addChild, lookup_insert, hc, if_false]
+        by_cases e1 : q = c.1
+        · have : ¬ q = tk := fun e => hc (e1 ▸ e)
+          simp [e1, hc]
+        · simp [e1]
+      exact (EqN.addAll cs step).trans
+        (addAll_insert_comm tk x cs _ (fun c' hc' => h c' (List.mem_cons_of_mem _ hc')))
+
+/-- the values `cs` holds under key `k`, in order -/
+def valsOf (k : Str) (cs : List (Str × Val)) : List Val := (cs.filter (·.1 = k)).map (·.2)
+
+/-- iterated promotion -/
+def promoteAll (o : Option Val) (vs : List Val) : Option Val :=
+  vs.foldl (fun o v => some (promote o v)) o
+
+theorem lookup_addAll (k : Str) : ∀ (cs : List (Str × Val)) (na : Entries),
+    lookup k (addAll na cs) = promoteAll (lookup k na) (valsOf k cs)
+  | [], na => by simp [addAll, promoteAll, valsOf]
+  | c :: cs, na => by
+      rw [addAll_cons, lookup_addAll k cs, lookup_addChild]
+      by_cases e : k = c.1
+      · subst e
+        simp [valsOf, promoteAll]
+      · have e' : ¬ c.1 = k := fun h => e h.symm
+        simp [valsOf, e, e']
+
+theorem promoteAll_list : ∀ (vs : List Val) (xs : List Val),
+    promoteAll (some (.list xs)) vs = some (.list (xs ++ vs))
+  | [], xs => by simp [promoteAll]
+  | v :: vs, xs => by
+      have ih := promoteAll_list vs (xs ++ [v])
+      simp only [promoteAll, List.foldl_cons, promote] at ih ⊢
+      rw [ih]; simp
+
+theorem collect_eq_promoteAll (o : Option Val) (vs : List Val)
+    (h : ∀ v ∈ vs, v.isList = false) : Conv.collect o vs = promoteAll o vs := by
+  cases vs with
+  | nil => cases o <;> simp [Conv.collect, promoteAll]
+  | cons v vs' =>
+    have step : promoteAll o (v :: vs') = promoteAll (some (promote o v)) vs' := rfl
+    rw [step]
+    cases o with
+    | none =>
+      cases vs' with
+      | nil => simp [Conv.collect, promoteAll, promote]
+      | cons v2 vs'' =>
+        have hv : v.isList = false := h v (List.mem_cons_self ..)
+        have step2 : promoteAll (some (promote none v)) (v2 :: vs'')
+            = promoteAll (some (promote (some v) v2)) vs'' := rfl
+        rw [step2]
+        have : promote (some v) v2 = .list [v, v2] := by
+          cases v <;> simp [promote, Val.isList] at hv ⊢
+        rw [this, promoteAll_list]
+        simp [Conv.collect]
+    | some old =>
+      cases old with
+      | list xs => simp [promote, promoteAll_list, Conv.collect]
+      | null => simp [promote, promoteAll_list, Conv.collect]
+      | bool _ => simp [promote, promoteAll_list, Conv.collect]
+      | num _ => simp [promote, promoteAll_list, Conv.collect]
+      | str _ => simp [promote, promoteAll_list, Conv.collect]
+      | map _ => simp [promote, promoteAll_list, Conv.collect]
+
+
+/-! ### `Conv.groupOnto` key-wise -/
+
+/-- one step of `groupOnto` -/
+def gStep (cs : List (Str × Val)) (b : Entries) (k : Str) : Entries :=
+  match Conv.collect (lookup k b) (valsOf k cs) with
+  | some val => insert k val b
+  | none => b
+
+theorem groupOnto_eq (base : Entries) (cs : List (Str × Val)) :
+    Conv.groupOnto base cs = ((cs.map (·.1)).eraseDups).foldl (gStep cs) base := rfl
+
+theorem collect_eq_none {o : Option Val} {vs : List Val} (h : Conv.collect o vs = none) : o = none := by
+  unfold Conv.collect at h
+  split at h <;> simp_all
+
+theorem lookup_gStep (cs : List (Str × Val)) (b : Entries) (k q : Str) :
+    lookup q (gStep cs b k)
+      = if q = k then Conv.collect (lookup k b) (valsOf k cs) else lookup q b := by
+  unfold gStep
+  split
+  · rename_i val hval
+    rw [lookup_insert]
+    by_cases e : q = k <;> simp [e, hval]
+  · rename_i hnone
+    by_cases e : q = k
+    · subst e
+      simp only [if_true, hnone]
+      exact collect_eq_none hnone
+    · simp [e]
+
+theorem nodup_keys_gStep (cs : List (Str × Val)) (b : Entries) (k : Str) (h : (keys b).Nodup) :
+    (keys (gStep cs b k)).Nodup := by
+  unfold gStep
+  split
+  · exact nodup_keys_insert _ _ _ h
+  · exact h
+
+theorem lookup_foldl_gStep (cs : List (Str × Val)) (q : Str) : ∀ (ks : List Str) (b : Entries),
+    ks.Nodup → lookup q (ks.foldl (gStep cs) b)
+      = if q ∈ ks then Conv.collect (lookup q b) (valsOf q cs) else lookup q b
+  | [], b, _ => by simp
+  | k :: ks, b, h => by
+      rw [List.nodup_cons] at h
+      rw [List.foldl_cons, lookup_foldl_gStep cs q ks _ h.2, lookup_gStep]
+      by_cases e : q = k
+      · subst e
+        simp [h.1]
+      · simp [e]
+
+theorem nodup_keys_foldl_gStep (cs : List (Str × Val)) : ∀ (ks : List Str) (b : Entries),
+    (keys b).Nodup → (keys (ks.foldl (gStep cs) b)).Nodup
+  | [], _, h => h
+  | k :: ks, b, h => by
+      rw [List.foldl_cons]
+      exact nodup_keys_foldl_gStep cs ks _ (nodup_keys_gStep cs b k h)
+
+theorem nodup_eraseDups_aux : ∀ (n : Nat) (l : List Str), l.length ≤ n → l.eraseDups.Nodup
+  | _, [], _ => by simp
+  | 0, _ :: _, h => by simp at h
+  | n + 1, a :: as, h => by
+      rw [List.eraseDups_cons, List.nodup_cons]
+      refine ⟨?_, nodup_eraseDups_aux n _ ?_⟩
+      · rw [List.mem_eraseDups]; simp
+      · have := List.length_filter_le (fun b => !b == a) as
+        simp only [List.length_cons] at h
+        omega
+
+theorem nodup_eraseDups (l : List Str) : l.eraseDups.Nodup := nodup_eraseDups_aux _ l (Nat.le_refl _)
+
+theorem valsOf_eq_nil {k : Str} {cs : List (Str × Val)} (h : k ∉ keys cs) : valsOf k cs = [] := by
+  unfold valsOf
+  simp only [List.map_eq_nil_iff, List.filter_eq_nil_iff, decide_eq_true_eq]
+  intro c hc e
+  exact h (by unfold keys; exact List.mem_map.2 ⟨c, hc, e⟩)
+
+theorem lookup_groupOnto (base : Entries) (cs : List (Str × Val)) (q : Str) :
+    lookup q (Conv.groupOnto base cs)
+      = if q ∈ keys cs then Conv.collect (lookup q base) (valsOf q cs) else lookup q base := by
+  rw [groupOnto_eq, lookup_foldl_gStep cs q _ _ (nodup_eraseDups _)]
+  simp only [List.mem_eraseDups, keys]
+  by_cases e : q ∈ List.map (fun x => x.fst) cs <;> simp [e]
+
+theorem nodup_keys_groupOnto (base : Entries) (cs : List (Str × Val)) (h : (keys base).Nodup) :
+    (keys (Conv.groupOnto base cs)).Nodup := by
+  rw [groupOnto_eq]; exact nodup_keys_foldl_gStep cs _ _ h
+
+/-- the declarative grouping and the insert/promote fold agree on every key, as long as no
+    child value is itself a list -/
+theorem lookup_groupOnto_eq_addAll (base : Entries) (cs : List (Str × Val))
+    (h : ∀ c ∈ cs, c.2.isList = false) (q : Str) :
+    lookup q (Conv.groupOnto base cs) = lookup q (addAll base cs) := by
+  rw [lookup_groupOnto, lookup_addAll]
+  by_cases e : q ∈ keys cs
+  · simp only [e, if_true]
+    apply collect_eq_promoteAll
+    intro v hv
+    unfold valsOf at hv
+    obtain ⟨c, hc, rfl⟩ := List.mem_map.1 hv
+    exact h c (List.mem_filter.1 hc).1
+  · simp only [e, if_false, valsOf_eq_nil e]
+    rfl
+
 end Dec
 end Mxj
